@@ -15,8 +15,9 @@ import Glom.Spec.C05
   (`spine (callsOf evs) e`) occurs among the rows in evaluation order, the extra rows are completed
   earlier chain steps, exactly one row shows the root error and it is the innermost call of the
   listed path, the branches of a row are its frame's CHILD_ERRORS (`c05_spine`, `c05_spine_from`,
-  `c05_first_row`, `c05_branches`); clause "the last row is the call that raised" holds only in
-  part (`c05_last_row_partial`, `c05_last_row_counterexample`).
+  `c05_first_row`, `c05_branches`); the last row is a call that raised and shows its own error
+  (`c05_last_row`; before glom commit effa985 the loop went on into a last child that had returned
+  normally: `c05_last_row_counterexample` about `unpackLoopOld`).
 
   *Partial*: the lift from rows to the rendered text (that `formatTrace`'s output satisfies the
   four clauses of `checkC05`) is not proved; it is validated on every run by evaluating
